@@ -211,8 +211,10 @@ struct Gen<'a, 'b> {
     d: &'b mut Dec<'a>,
     n_pup: u8,
     n_leaf: u8,
-    /// per puppet: may greet late; is an outer puppet (items are sources)
+    /// per puppet: may greet late
     late_ok: Vec<bool>,
+    /// leaves are always puppets (the operator models need every upstream instrumented)
+    puppets_only: bool,
 }
 
 impl<'a, 'b> Gen<'a, 'b> {
@@ -223,8 +225,8 @@ impl<'a, 'b> Gen<'a, 'b> {
         Topo::Puppet(id)
     }
     fn leaf(&mut self, late_ok: bool) -> Topo {
-        // 0..=199 puppet, else from_iter
-        if self.d.u8() < 208 {
+        // mostly puppets, sometimes a real from_iter
+        if self.d.u8() < 208 || self.puppets_only {
             self.puppet(late_ok)
         } else {
             let leaf = self.n_leaf;
@@ -373,7 +375,13 @@ impl<'a, 'b> Gen<'a, 'b> {
 
 pub fn decode(profile: Profile, bytes: &[u8], max_steps: usize) -> Scenario {
     let mut dec = Dec::new(bytes);
-    let mut g = Gen { d: &mut dec, n_pup: 0, n_leaf: 0, late_ok: vec![] };
+    let mut g = Gen {
+        d: &mut dec,
+        n_pup: 0,
+        n_leaf: 0,
+        late_ok: vec![],
+        puppets_only: matches!(profile, Profile::Single(_) | Profile::Share | Profile::ShareNested),
+    };
     let mut root_tuple = false;
     let mut sink_kind = SinkKind::Probe;
     let mut n_sinks = 1usize;
